@@ -31,6 +31,8 @@ type c17Case struct {
 	RestoreMode string      `json:"restoreMode,omitempty"` // bytes | reader
 	PreTimeline bool        `json:"preTimeline,omitempty"` // the database already has a timeline id before the snapshot
 	Listeners   int         `json:"listeners,omitempty"`
+	// HoldListener: the slow restore listener is still busy with the first restore when the second one happens
+	HoldListener bool `json:"holdListener,omitempty"`
 	// SkipTimeline: no timeline request is made between the first restore and the second snapshot
 	SkipTimeline bool `json:"skipTimeline,omitempty"`
 	// WriteDuringSnapshotTx (snapMode file-in-tx): the first post-snapshot transaction commits while the read
@@ -67,6 +69,7 @@ func genC17(t *rapid.T) c17Case {
 	c.SnapMode = []string{"file", "file-in-tx", "stream"}[rapid.IntRange(0, 2).Draw(t, "snapMode")]
 	c.RestoreMode = []string{"bytes", "reader", "reader-data-with-eof"}[rapid.IntRange(0, 2).Draw(t, "restoreMode")]
 	c.SkipTimeline = rapid.IntRange(0, 2).Draw(t, "skipTimeline") == 0
+	c.HoldListener = rapid.IntRange(0, 2).Draw(t, "holdListener") == 0
 	c.WriteDuringSnapshotTx = rapid.Bool().Draw(t, "writeDuringSnapshotTx")
 	c.PreTimeline = rapid.Bool().Draw(t, "preTimeline")
 	c.Listeners = rapid.IntRange(0, 3).Draw(t, "listeners")
@@ -293,15 +296,25 @@ func runC17(c c17Case) kit.Result {
 			return res
 		}
 	}
-	close(release)
-	deadline := time.Now().Add(10 * time.Second)
-	for int(fired.Load()) < c.Listeners && time.Now().Before(deadline) {
-		time.Sleep(100 * time.Microsecond)
-	}
-	time.Sleep(200 * time.Microsecond)
-	if n := int(fired.Load()); n != c.Listeners {
-		res.Err = fmt.Errorf("%d restore listeners registered, %d invocations after one restore", c.Listeners, n)
-		return res
+	hold := c.HoldListener && c.Listeners > 1 && c.SnapMode != "stream"
+	released := false
+	defer func() {
+		if !released {
+			close(release)
+		}
+	}()
+	if !hold {
+		close(release)
+		released = true
+		deadline := time.Now().Add(10 * time.Second)
+		for int(fired.Load()) < c.Listeners && time.Now().Before(deadline) {
+			time.Sleep(100 * time.Microsecond)
+		}
+		time.Sleep(200 * time.Microsecond)
+		if n := int(fired.Load()); n != c.Listeners {
+			res.Err = fmt.Errorf("%d restore listeners registered, %d invocations after one restore", c.Listeners, n)
+			return res
+		}
 	}
 	// timeline: the first request after restoring a marked snapshot gets a fresh id exactly once
 	if c.SkipTimeline {
@@ -403,6 +416,22 @@ func runC17(c c17Case) kit.Result {
 		res.Err = fmt.Errorf("after the second restore: %v", err)
 	}
 	res.Classes = append(res.Classes, "second-restore-cycle")
+	if hold {
+		// the slow listener was still busy with the first restore when the second one happened: once it is let go,
+		// every listener has been invoked once per restore
+		close(release)
+		released = true
+		deadline := time.Now().Add(10 * time.Second)
+		for int(fired.Load()) < 2*c.Listeners && time.Now().Before(deadline) {
+			time.Sleep(100 * time.Microsecond)
+		}
+		time.Sleep(300 * time.Microsecond)
+		if n := int(fired.Load()); n != 2*c.Listeners {
+			res.Err = fmt.Errorf("%d restore listeners registered (one of them slow), two restores: %d invocations, want %d", c.Listeners, n, 2*c.Listeners)
+			return res
+		}
+		res.Classes = append(res.Classes, "listener-busy-across-the-second-restore")
+	}
 	if c.SkipTimeline {
 		// the first timeline request at all after two restores: a fresh id, generated exactly once
 		calls := 0
@@ -414,6 +443,45 @@ func runC17(c c17Case) kit.Result {
 		}
 	}
 	return res
+}
+
+// slowWriter collects a stream; after the first chunk it pauses so that other transactions commit in the meantime.
+type slowWriter struct {
+	buf    bytes.Buffer
+	chunks int
+}
+
+func (s *slowWriter) Write(p []byte) (int, error) {
+	s.chunks++
+	if s.chunks == 1 {
+		time.Sleep(3 * time.Millisecond)
+	} else {
+		time.Sleep(50 * time.Microsecond)
+	}
+	return s.buf.Write(p)
+}
+
+// c17Pad grows the file (and bbolt's memory map) once and frees the pages again.
+func c17Pad(w *kit.World) error {
+	if err := w.Z.Db.Update(kit.NewCtx(), func(ctx boltz.MutateContext) error {
+		pad, err := ctx.Tx().CreateBucket([]byte("zz-pad"))
+		if err != nil {
+			return err
+		}
+		chunk := bytes.Repeat([]byte("p"), 2048)
+		for i := 0; i < 300; i++ {
+			if err := pad.Put([]byte(fmt.Sprintf("k%04d", i)), chunk); err != nil {
+				return err
+			}
+		}
+		return nil
+	}); err != nil {
+		return fmt.Errorf("harness: padding the file: %v", err)
+	}
+	if err := w.Z.Db.Update(kit.NewCtx(), func(ctx boltz.MutateContext) error { return ctx.Tx().DeleteBucket([]byte("zz-pad")) }); err != nil {
+		return fmt.Errorf("harness: padding the file: %v", err)
+	}
+	return nil
 }
 
 // midStreamReader delivers data and calls hook once when the given offset has been passed.
@@ -564,6 +632,61 @@ func runC17Concurrent(c c17Case) kit.Result {
 			res.Err = fmt.Errorf("setup: %v", err)
 			return res
 		}
+	}
+	if c.Restores == 2 {
+		// streaming phase: a snapshot is streamed to a slow receiver while a writer keeps committing generations; what
+		// arrives is one committed generation of the whole database, not a mixture (restored and read back below)
+		if err := c17Pad(w); err != nil {
+			res.Err = err
+			return res
+		}
+		genAtStart := gen
+		stopBurst := make(chan struct{})
+		burstDone := make(chan error, 1)
+		go func() {
+			g := genAtStart
+			for {
+				select {
+				case <-stopBurst:
+					burstDone <- nil
+					return
+				default:
+				}
+				g++
+				if err := writeGeneration(w, c.Entities, g, false); err != nil {
+					burstDone <- fmt.Errorf("writer beside the streaming snapshot: generation %d: %v", g, err)
+					return
+				}
+				gen = g
+			}
+		}()
+		sw := &slowWriter{}
+		serr := w.Z.Db.StreamToWriter(sw)
+		close(stopBurst)
+		if berr := <-burstDone; berr != nil || serr != nil {
+			res.Err = fmt.Errorf("streaming phase: stream error %v, writer error %v", serr, berr)
+			return res
+		}
+		genAtEnd := gen
+		func() {
+			defer func() {
+				if p := recover(); p != nil {
+					res.Err = fmt.Errorf("restoring the streamed snapshot panicked: %v", p)
+				}
+			}()
+			w.Z.Db.RestoreSnapshot(sw.buf.Bytes())
+		}()
+		if res.Err != nil {
+			abandon = true
+			return res
+		}
+		g, rerr := readGeneration(w, c.Entities)
+		if rerr != nil || g < genAtStart || g > genAtEnd {
+			res.Err = fmt.Errorf("a snapshot streamed while generations %d..%d were being committed restores to generation %d, error: %v", genAtStart, genAtEnd, g, rerr)
+			return res
+		}
+		gen = g
+		res.Classes = append(res.Classes, "snapshot-streamed-beside-a-writer")
 	}
 	snapGen := gen
 	data, _, err := takeSnapshot(w, "file")
